@@ -83,8 +83,8 @@ func (x *Exec) inlineCall(st *State, in *ssa.Call, f *ssa.Function, args []Val) 
 	fr := &frame{call: in, names: st.names, fn: f, collect: &collected}
 	// name large heap terms before forking so that the branches (and their
 	// merge) mention them by name instead of copying them
-	for h, t := range st.heaps {
-		if len(t.S) > 300 {
+	for _, h := range sortedKeys(st.heaps) {
+		if t := st.heaps[h]; len(t.S) > 300 {
 			st.heaps[h] = x.share(t)
 		}
 	}
